@@ -23,6 +23,8 @@ import shutil
 import numpy as np
 
 from .common import (
+    ITERABLE_FORMS,
+    as_iterable,
     is_wf,
     make_tree,
     same_snapshot,
@@ -172,10 +174,17 @@ def enum_args(name, t):
         return [[]]
     if name == "get_subtree":
         return [[i] for i in range(n)]
-    if name == "to_subtree":  # every subset of the non-root nodes (+ one list with a repeated id)
-        out = [[list(c)] for k in range(n) for c in itertools.combinations(range(1, n), k)]
+    if name == "to_subtree":  # every subset of the non-root nodes (+ one list with a repeated id); `removals: Iterable[int]` is handed over
+        # in every FORM in rotation (bounded/common.py: ITERABLE_FORMS -- containers, arrays, dict keys, range, one-shot iterators)
+        out, j = [], n
+        for k in range(n):
+            for c in itertools.combinations(range(1, n), k):
+                form = ITERABLE_FORMS[j % len(ITERABLE_FORMS)]
+                j += 1
+                out.append([list(c), form if as_iterable(list(c), form) is not None else "list"])
         if n > 1:
-            out.append([[n - 1, n - 1]])
+            out.append([[n - 1, n - 1], "list"])
+            out.append([[n - 1, n - 1], "generator-expression"])
         return out
     if name == "cut_tree":
         types = sorted({int(v) for v in t.type()[1:]})
@@ -224,7 +233,9 @@ def enum_args(name, t):
 def sample_args(name, t, rng):
     n = t.number_of_nodes()
     if name == "to_subtree":
-        return [[i for i in range(1, n) if rng.random() < 0.3]]
+        ids = [i for i in range(1, n) if rng.random() < 0.3]
+        form = rng.choice(ITERABLE_FORMS)
+        return [ids, form if as_iterable(ids, form) is not None else "list"]
     if name == "Transforms":
         k = rng.randrange(0, 4)
         kids = []
@@ -271,7 +282,7 @@ def apply_op(op, t, scratch=None, second=None):
         if name == "get_subtree":
             return U.get_subtree(t, int(args[0]))
         if name == "to_subtree":
-            return U.to_subtree(t, [int(i) for i in args[0]])
+            return U.to_subtree(t, as_iterable([int(i) for i in args[0]], args[1] if len(args) > 1 else "list"))
         if name == "cut_tree":
             return U.cut_tree(t, **_cut_callbacks(args[0], args[1]))
         if name == "redirect_tree":
